@@ -507,3 +507,301 @@ Proof.
   destruct (ci_get (e_fields e) s_crossref) as [v|]; [|reflexivity].
   destruct (ci_get d v); reflexivity.
 Qed.
+
+(* ======================================================================================
+   names(): the stock styles do not see an inherited person role (finding FC14a)
+   ====================================================================================== *)
+Definition fc14a_child : entry := mkEntry 0 [99%N] [(s_crossref, [112%N])] [].          (* @misc{c, crossref = {p}} *)
+Definition fc14a_parent : entry := mkEntry 1 [112%N] [] [([97%N], [[65%N]])].          (* @misc{p, a = {A}} : role a *)
+Definition fc14a_db : db := [([99%N], fc14a_child); ([112%N], fc14a_parent)].
+
+Lemma names_inherit_refuted_l :
+  exists d e role v, bst_var d e role = Ok (Some v) /\ py_var (Some d) e role = Ok (Some v) /\
+                     names_var e role = Ok None.
+Proof. exists fc14a_db, fc14a_child, [97%N], [65%N]. vm_compute. repeat split. Qed.
+
+Lemma names_own_partial_l : forall bd e role ps,
+  ci_get (e_fields e) role = None -> ci_get (e_persons e) role = Some ps ->
+  names_var e role = py_var bd e role.
+Proof.
+  intros bd e role ps Hf Hp. unfold names_var, template_names, py_var, template_field, entry_find_field.
+  rewrite Hp.
+  assert (H : exists n, fuel_for bd = S n) by (destruct bd; cbn [fuel_for]; [exists (length d + 1); lia|exists 0; reflexivity]).
+  destruct H as [n ->]. rewrite (person_role_as_field_l n bd e role [] ps Hf Hp). reflexivity.
+Qed.
+
+(* ======================================================================================
+   reading filtered by the citations keeps the whole chain (children first)
+   ====================================================================================== *)
+Lemma ci_get_app {V} (a b : list (str * V)) k :
+  ci_get (a ++ b) k = match ci_get a k with Some v => Some v | None => ci_get b k end.
+Proof.
+  induction a as [|[k0 v0] a IH]; cbn [app ci_get]; [reflexivity|].
+  destruct (str_eqb (lower k0) (lower k)); [reflexivity|exact IH].
+Qed.
+
+Lemma canonical_key_lower cits k : lower (canonical_key cits k) = lower k.
+Proof.
+  unfold canonical_key. destruct (find _ (rev cits)) as [c|] eqn:E; [|reflexivity].
+  apply find_some in E. destruct E as [_ E].
+  destruct (str_eqb_spec (lower c) (lower k)); [assumption|discriminate].
+Qed.
+
+Lemma want_lower w k k' : lower k' = lower k -> want_entry w k' = want_entry w k.
+Proof. intros H. destruct w as [ws|]; cbn [want_entry]; [|reflexivity]. rewrite (ci_mem_lower ws k k' H). reflexivity. Qed.
+
+Lemma want_mono ws more k : want_entry (Some ws) k = true -> want_entry (Some (ws ++ more)) k = true.
+Proof.
+  cbn [want_entry]. rewrite !ci_mem_app. intros H. apply orb_true_iff in H.
+  destruct H as [->| ->]; cbn [orb]; [reflexivity|]. rewrite orb_true_r. reflexivity.
+Qed.
+
+Lemma want_added ws cr c : lower c = lower cr -> want_entry (Some (ws ++ [cr])) c = true.
+Proof.
+  intros H. cbn [want_entry]. rewrite ci_mem_app. unfold ci_mem at 2. cbn [existsb]. rewrite H, str_eqb_refl.
+  cbn [orb]. rewrite orb_true_r. reflexivity.
+Qed.
+
+Definition rdb (st : rstate) : db := fst (fst st).
+
+(* one step of the reader on a key that is not yet in the database *)
+Lemma add_entry_fresh cits d ws rep k e : ci_get d k = None ->
+  add_entry cits (d, Some ws, rep) (k, e) =
+  if want_entry (Some ws) k
+  then (d ++ [(canonical_key cits k, rekey (canonical_key cits k) e)],
+        Some (match ci_get (e_fields e) s_crossref with Some c => ws ++ [c] | None => ws end), rep)
+  else (d, Some ws, rep).
+Proof.
+  intros H. cbn [add_entry]. destruct (want_entry (Some ws) k); cbn [negb]; [|reflexivity].
+  rewrite H. destruct (ci_get (e_fields e) s_crossref); reflexivity.
+Qed.
+
+Lemma read_fold_spec : forall cits post d ws rep,
+  (forall k e, In (k, e) post -> ci_get d k = None) ->
+  NoDup (map (fun ke => lower (fst ke)) post) ->
+  let d' := rdb (fold_left (add_entry cits) post (d, Some ws, rep)) in
+  (forall k v, ci_get d k = Some v -> ci_get d' k = Some v) /\
+  (forall k e, In (k, e) post -> want_entry (Some ws) k = true -> exists k', ci_get d' k = Some (rekey k' e)) /\
+  (forall p1 k e p2 k' cr c p, post = p1 ++ (k, e) :: p2 -> ci_get d' k = Some (rekey k' e) ->
+       ci_get (e_fields e) s_crossref = Some cr -> In (c, p) p2 -> lower c = lower cr ->
+       exists k'', ci_get d' c = Some (rekey k'' p)) /\
+  (forall k v, ci_get d' k = Some v ->
+       ci_get d k = Some v \/ exists k0 e0 k', In (k0, e0) post /\ lower k0 = lower k /\ v = rekey k' e0).
+Proof.
+  intros cits. induction post as [|[kx ex] rest IH]; intros d ws rep Hfresh Hnd d'.
+  - subst d'. cbn [fold_left rdb fst]. repeat split.
+    + auto.
+    + intros k e [].
+    + intros p1 k e p2 k' cr c p Heq. destruct p1; discriminate Heq.
+    + intros k v H. left. exact H.
+  - cbn [map] in Hnd. inversion Hnd as [|? ? Hnotin Hnd']; subst.
+    assert (Hkx : ci_get d kx = None) by (apply (Hfresh kx ex); left; reflexivity).
+    subst d'. cbn [fold_left]. rewrite (add_entry_fresh cits d ws rep kx ex Hkx).
+    assert (Hrest_ne : forall k e, In (k, e) rest -> lower k <> lower kx).
+    { intros k e Hin Heq. apply Hnotin. apply in_map_iff. exists (k, e). split; [exact Heq|exact Hin]. }
+    destruct (want_entry (Some ws) kx) eqn:Hw.
+    + (* the entry is added *)
+      set (k1 := canonical_key cits kx).
+      set (ws1 := match ci_get (e_fields ex) s_crossref with Some c => ws ++ [c] | None => ws end).
+      assert (Hk1 : lower k1 = lower kx) by apply canonical_key_lower.
+      assert (Hfresh1 : forall k e, In (k, e) rest -> ci_get (d ++ [(k1, rekey k1 ex)]) k = None).
+      { intros k e Hin. rewrite ci_get_app, (Hfresh k e (or_intror Hin)). cbn [ci_get].
+        destruct (str_eqb_spec (lower k1) (lower k)) as [E|_]; [|reflexivity].
+        exfalso. apply (Hrest_ne k e Hin). congruence. }
+      destruct (IH (d ++ [(k1, rekey k1 ex)]) ws1 rep Hfresh1 Hnd') as [I1 [I2 [I3 I4]]].
+      assert (Hx : ci_get (d ++ [(k1, rekey k1 ex)]) kx = Some (rekey k1 ex)).
+      { rewrite ci_get_app, Hkx. cbn [ci_get]. rewrite Hk1, str_eqb_refl. reflexivity. }
+      assert (Hmono : forall k, want_entry (Some ws) k = true -> want_entry (Some ws1) k = true).
+      { intros k H. unfold ws1. destruct (ci_get (e_fields ex) s_crossref); [apply want_mono; exact H|exact H]. }
+      repeat split.
+      * intros k v H. apply I1. rewrite ci_get_app, H. reflexivity.
+      * intros k e [Heq|Hin] Hwant.
+        -- injection Heq as <- <-. exists k1. apply I1. exact Hx.
+        -- apply I2; [exact Hin|apply Hmono; exact Hwant].
+      * intros p1 k e p2 k' cr c p Heq Hkept Hcr Hin Hl. destruct p1 as [|x p1].
+        -- cbn [app] in Heq. injection Heq as <- <- <-.
+           apply I2; [exact Hin|]. unfold ws1. rewrite Hcr. apply want_added. exact Hl.
+        -- cbn [app] in Heq. injection Heq as _ Heq. eapply I3; eassumption.
+      * intros k v H. destruct (I4 k v H) as [H0|[k0 [e0 [k' [Hin [Hl Hv]]]]]].
+        -- rewrite ci_get_app in H0. destruct (ci_get d k) as [v0|] eqn:Ed; [left; exact H0|].
+           cbn [ci_get] in H0. destruct (str_eqb_spec (lower k1) (lower k)) as [E|_]; [|discriminate].
+           injection H0 as <-. right. exists kx, ex, k1. split; [left; reflexivity|]. split; [congruence|reflexivity].
+        -- right. exists k0, e0, k'. split; [right; exact Hin|]. split; assumption.
+    + (* the entry is skipped *)
+      assert (Hfresh1 : forall k e, In (k, e) rest -> ci_get d k = None) by (intros k e Hin; apply (Hfresh k e); right; exact Hin).
+      destruct (IH d ws rep Hfresh1 Hnd') as [I1 [I2 [I3 I4]]].
+      assert (Hnone : ci_get (rdb (fold_left (add_entry cits) rest (d, Some ws, rep))) kx = None).
+      { destruct (ci_get (rdb (fold_left (add_entry cits) rest (d, Some ws, rep))) kx) as [v|] eqn:E; [|reflexivity].
+        exfalso. destruct (I4 kx v E) as [H0|[k0 [e0 [k' [Hin [Hl _]]]]]]; [congruence|].
+        apply (Hrest_ne k0 e0 Hin Hl). }
+      repeat split.
+      * exact I1.
+      * intros k e [Heq|Hin] Hwant; [injection Heq as <- <-; congruence|apply I2; assumption].
+      * intros p1 k e p2 k' cr c p Heq Hkept Hcr Hin Hl. destruct p1 as [|x p1].
+        -- cbn [app] in Heq. injection Heq as <- <- <-. congruence.
+        -- cbn [app] in Heq. injection Heq as _ Heq. eapply I3; eassumption.
+      * intros k v H. destruct (I4 k v H) as [H0|[k0 [e0 [k' [Hin [Hl Hv]]]]]]; [left; exact H0|].
+        right. exists k0, e0, k'. split; [right; exact Hin|]. split; assumption.
+Qed.
+
+Lemma ci_get_In_lower {V} (d : list (str * V)) k v :
+  ci_get d k = Some v -> exists k0, In (k0, v) d /\ lower k0 = lower k.
+Proof.
+  induction d as [|[k' v'] d IH]; cbn [ci_get]; [discriminate|].
+  destruct (str_eqb_spec (lower k') (lower k)) as [E|_].
+  - intros [= ->]. exists k'. split; [left; reflexivity|exact E].
+  - intros H. destruct (IH H) as [k0 [Hin Hl]]. exists k0. split; [right; exact Hin|exact Hl].
+Qed.
+
+Lemma In_ci_get_some {V} (d : list (str * V)) k v : In (k, v) d -> exists v', ci_get d k = Some v'.
+Proof.
+  induction d as [|[k' v'] d IH]; intros Hin; [destruct Hin|]. cbn [ci_get].
+  destruct (str_eqb_spec (lower k') (lower k)) as [_|N]; [eexists; reflexivity|].
+  destruct Hin as [Heq|Hin]; [injection Heq as -> _; congruence|apply IH; exact Hin].
+Qed.
+
+Lemma find_field_S n bd e name vis :
+  find_field (S n) bd e name vis =
+  match ci_get (e_fields e) name with
+  | Some v => Ok (Some v)
+  | None => match find_person_field e name with
+            | Some v => Ok (Some v)
+            | None => find_crossref_field (fun e' vis' => find_field n bd e' name vis') e bd vis
+            end
+  end.
+Proof. reflexivity. Qed.
+
+Lemma find_field_more : forall n bd e f vis v,
+  find_field n bd e f vis = Ok v -> find_field (S n) bd e f vis = Ok v.
+Proof.
+  induction n as [|n IH]; intros bd e f vis v H; [discriminate H|].
+  rewrite find_field_S in H. rewrite find_field_S.
+  destruct (ci_get (e_fields e) f); [exact H|].
+  destruct (find_person_field e f); [exact H|].
+  unfold find_crossref_field in *. destruct bd as [d|]; [|exact H].
+  destruct (ci_get (e_fields e) s_crossref); [|exact H].
+  destruct (existsb (Nat.eqb (e_id e)) vis); [exact H|].
+  destruct (ci_get d s); [|exact H]. apply IH. exact H.
+Qed.
+
+Lemma find_field_mono : forall m n bd e f vis v,
+  find_field n bd e f vis = Ok v -> find_field (n + m) bd e f vis = Ok v.
+Proof.
+  induction m as [|m IH]; intros n bd e f vis v H.
+  - rewrite Nat.add_0_r. exact H.
+  - rewrite Nat.add_succ_r. apply find_field_more. apply IH. exact H.
+Qed.
+
+Section Filtered.
+  Variables (cits : list str) (file : db).
+  Hypothesis Hnd : keys_distinct file.
+  Hypothesis Hcf : children_first file.
+  Let dF := read_filtered (Some cits) file.
+
+  Definition keptP (k0 : str) (e : entry) : Prop :=
+    exists p1 p2 k', file = p1 ++ (k0, e) :: p2 /\ ci_get dF k0 = Some (rekey k' e).
+
+  Lemma read_spec_file :
+    (forall k e, In (k, e) file -> want_entry (Some cits) k = true -> exists k', ci_get dF k = Some (rekey k' e)) /\
+    (forall p1 k e p2 k' cr c p, file = p1 ++ (k, e) :: p2 -> ci_get dF k = Some (rekey k' e) ->
+         ci_get (e_fields e) s_crossref = Some cr -> In (c, p) p2 -> lower c = lower cr ->
+         exists k'', ci_get dF c = Some (rekey k'' p)) /\
+    (forall k v, ci_get dF k = Some v -> exists k0 e0 k', In (k0, e0) file /\ lower k0 = lower k /\ v = rekey k' e0).
+  Proof.
+    destruct (read_fold_spec cits file [] cits [] (fun _ _ _ => eq_refl) Hnd) as [_ [I2 [I3 I4]]].
+    split; [exact I2|]. split; [exact I3|].
+    intros k v H. destruct (I4 k v H) as [H0|H0]; [discriminate H0|exact H0].
+  Qed.
+
+  Lemma kept_parent : forall k0 e cr, keptP k0 e -> ci_get (e_fields e) s_crossref = Some cr ->
+    match ci_get file cr with
+    | Some p => exists c k'', keptP c p /\ ci_get dF cr = Some (rekey k'' p)
+    | None => ci_get dF cr = None
+    end.
+  Proof.
+    intros k0 e cr [p1 [p2 [k' [Hfile Hk]]]] Hcr.
+    destruct read_spec_file as [_ [I3 I4]].
+    destruct (ci_get file cr) as [p|] eqn:Ep.
+    - pose proof (Hcf p1 k0 e p2 cr Hfile Hcr) as Hbefore.
+      assert (Hsplit : file = (p1 ++ [(k0, e)]) ++ p2) by (rewrite <- app_assoc; exact Hfile).
+      rewrite Hsplit, ci_get_app, Hbefore in Ep.
+      destruct (ci_get_In_lower p2 cr p Ep) as [c [Hin Hl]].
+      destruct (I3 p1 k0 e p2 k' cr c p Hfile Hk Hcr Hin Hl) as [k'' Hc].
+      exists c, k''. split.
+      + destruct (in_split _ _ Hin) as [q1 [q2 Hq]].
+        exists (p1 ++ (k0, e) :: q1), q2, k''. split; [|exact Hc].
+        rewrite Hfile, Hq, <- app_assoc. reflexivity.
+      + rewrite <- (ci_get_lower dF cr c Hl). exact Hc.
+    - destruct (ci_get dF cr) as [v|] eqn:Ev; [|reflexivity].
+      exfalso. destruct (I4 cr v Ev) as [c [e0 [k'' [Hin [Hl _]]]]].
+      destruct (In_ci_get_some file c e0 Hin) as [v' Hv'].
+      rewrite (ci_get_lower file cr c Hl) in Hv'. congruence.
+  Qed.
+
+  Lemma filtered_sim : forall f n vis k0 e kk, keptP k0 e ->
+    find_field n (Some dF) (rekey kk e) f vis = find_field n (Some file) e f vis.
+  Proof.
+    intros f. induction n as [|n IH]; intros vis k0 e kk Hk; [reflexivity|].
+    rewrite !find_field_S. cbn [rekey e_fields].
+    destruct (ci_get (e_fields e) f); [reflexivity|].
+    change (find_person_field (rekey kk e) f) with (find_person_field e f).
+    destruct (find_person_field e f); [reflexivity|].
+    unfold find_crossref_field. cbn [rekey e_fields e_id].
+    destruct (ci_get (e_fields e) s_crossref) as [cr|] eqn:Ecr; [|reflexivity].
+    destruct (existsb (Nat.eqb (e_id e)) vis); [reflexivity|].
+    pose proof (kept_parent k0 e cr Hk Ecr) as Hp.
+    destruct (ci_get file cr) as [p|].
+    - destruct Hp as [c [k'' [Hkp ->]]]. cbn [rekey e_id]. apply (IH _ c). exact Hkp.
+    - rewrite Hp. reflexivity.
+  Qed.
+
+  Lemma filtered_chain_inherits_l : forall k e f,
+    want_entry (Some cits) k = true -> ci_get file k = Some e ->
+    exists k', ci_get dF k = Some (rekey k' e) /\
+               entry_find_field (Some dF) (rekey k' e) f = entry_find_field (Some file) e f.
+  Proof.
+    intros k e f Hw Hk.
+    destruct (ci_get_In_lower file k e Hk) as [k0 [Hin Hl]].
+    destruct read_spec_file as [I2 _].
+    destruct (I2 k0 e Hin) as [k' Hk'].
+    { rewrite (want_lower (Some cits) k k0 Hl). exact Hw. }
+    exists k'. split; [rewrite <- (ci_get_lower dF k k0 Hl); exact Hk'|].
+    assert (Hkept : keptP k0 e).
+    { destruct (in_split _ _ Hin) as [p1 [p2 Hs]]. exists p1, p2, k'. split; assumption. }
+    destruct (find_terminates_l (Some dF) (rekey k' e) f) as [v Hv].
+    destruct (find_terminates_l (Some file) e f) as [v2 Hv2].
+    rewrite Hv, Hv2. unfold entry_find_field in Hv, Hv2.
+    pose proof (find_field_mono (fuel_for (Some file)) _ _ _ _ _ _ Hv) as H1.
+    pose proof (find_field_mono (fuel_for (Some dF)) _ _ _ _ _ _ Hv2) as H2.
+    rewrite (filtered_sim f _ [] k0 e k' Hkept) in H1.
+    rewrite (Nat.add_comm (fuel_for (Some file))) in H2. congruence.
+  Qed.
+End Filtered.
+
+Lemma filtered_engines_agree_l : forall file cits minx fs, no_crossref_var fs = true ->
+  exists reports ob op,
+    bst_run_file file cits minx fs = Ok (reports, ob) /\
+    format_bibliography_file file cits minx fs = Ok (reports, op) /\
+    map snd ob = map snd op.
+Proof.
+  intros file cits minx fs H. unfold bst_run_file, format_bibliography_file.
+  destruct (engines_agree_l (read_filtered (Some cits) file) cits minx fs H) as [r [ob [op [H1 [H2 [H3 _]]]]]].
+  exists r, ob, op. repeat split; assumption.
+Qed.
+
+(* a chain child -> mid -> top, children first, and the same file with the parents first *)
+Definition fl_child : entry := mkEntry 0 [99%N] [(s_crossref, [109%N])] [].                (* c: crossref = m *)
+Definition fl_mid : entry := mkEntry 1 [109%N] [(s_crossref, [116%N])] [].                 (* m: crossref = t *)
+Definition fl_top : entry := mkEntry 2 [116%N] [([120%N], [88%N])] [].                      (* t: x = X *)
+Definition fl_good : db := [([99%N], fl_child); ([109%N], fl_mid); ([116%N], fl_top)].
+Definition fl_bad : db := [([116%N], fl_top); ([109%N], fl_mid); ([99%N], fl_child)].
+
+Lemma fl_good_ok : keys_distinct fl_good /\ children_first fl_good.
+Proof.
+  split.
+  - unfold keys_distinct. vm_compute. repeat constructor; cbn; intuition discriminate.
+  - intros pre k e post cr Heq Hcr.
+    destruct pre as [|a [|b [|c [|x pre]]]]; cbn in Heq; try discriminate Heq;
+      injection Heq; intros; subst; vm_compute in Hcr; try discriminate Hcr;
+      injection Hcr as <-; vm_compute; reflexivity.
+Qed.
